@@ -21,6 +21,7 @@ META = {
 }
 
 IONAMES = {"i0": "d_input", "i1": "sel_output", "g": "reg_output", "h": "pre_input", "a": "a_input", "o": "q_output"}
+ODDNAMES = {"i0": "_en", "i1": "b0", "i2": "d1", "g": "_y1", "h": "h1", "a": "_a", "b": "d0", "s": "b1", "o": "_o", "n": "h0", "c": "_ab"}
 
 
 def all_cases(ctx):
@@ -36,6 +37,7 @@ def all_cases(ctx):
     cs.append((("sub", "upper_prim_names"), ("spec", upper)))
     ties = {"a": "tie0", "b": "tie1", "i0": "tie0", "i1": "tie1", "s": "tie_0"}
     cs += [(("sub", "tienames") + cid, ("spec", rename(s, lambda n: ties.get(n, n)))) for cid, s in F.f_shape() + F.f_bb() + [c for c in F.f_rand(ctx.seed + 3, 12, consts=True)]]
+    cs += [(("sub", "oddnames") + cid, ("spec", rename(s, lambda n: ODDNAMES.get(n, n)))) for cid, s in F.f_unit(3, pairs=False) + F.f_shape()[:8] + [c for c in F.f_unit(3) if c[0][0] == "pair"][:8]]
     cs += [(("writer",) + cid, ("writer", s)) for cid, s in base[::3]]
     cs += [(("lib", n), ("lib", n)) for n in (["c17", "c17_gates", "s27", "c432"] + ([] if ctx.quick else ["c499", "c880", "c1355"]))]
     return cs
